@@ -301,6 +301,12 @@ fn sample_of(desc: &RunDesc, r: &RunResult) -> J {
         .set("epochs_advanced", r.json.getu("epochs"))
 }
 
+/// Where this installation lives (the directory of `check`); /verif unless VERIF_HOME says otherwise
+/// (background runs from a snapshot of /verif set it so that nothing is shared with /verif).
+pub fn home() -> String {
+    std::env::var("VERIF_HOME").unwrap_or_else(|_| "/verif".to_string())
+}
+
 pub fn env_u64(k: &str, d: u64) -> u64 {
     std::env::var(k).ok().and_then(|s| s.parse().ok()).unwrap_or(d)
 }
@@ -323,7 +329,7 @@ pub fn family_of(plan: &[PlanEntry], i: u64) -> &'static str {
 }
 
 fn tmp_dir() -> String {
-    let d = "/verif/target/tmp".to_string();
+    let d = format!("{}/target/tmp", home());
     let _ = std::fs::create_dir_all(&d);
     d
 }
@@ -393,7 +399,7 @@ pub struct Known {
 }
 
 pub fn load_known() -> Vec<Known> {
-    let txt = std::fs::read_to_string("/verif/known_findings.json").unwrap_or_else(|_| "[]".into());
+    let txt = std::fs::read_to_string(format!("{}/known_findings.json", home())).unwrap_or_else(|_| "[]".into());
     let j = J::parse(&txt).unwrap_or(J::Arr(vec![]));
     j.as_arr()
         .map(|a| {
@@ -483,7 +489,7 @@ pub fn main_check(prop: &str, tier: &str) -> i32 {
         new_violations.push((sig.clone(), *count, first.clone()));
     }
     let mut replay_paths = Vec::new();
-    let _ = std::fs::create_dir_all("/verif/replays");
+    let _ = std::fs::create_dir_all(format!("{}/replays", home()));
     for (sig, count, first) in &new_violations {
         let path = crate::minimize::report(prop, sig, first);
         println!("VIOLATION property={} replay={}", prop, path);
@@ -574,6 +580,6 @@ fn write_evidence(prop: &str, tier: &str, seed: u64, agg: &Agg, wall: f64, viola
         )
         .set("wall_s", wall)
         .set("violations", violations);
-    let _ = std::fs::create_dir_all("/verif/evidence");
-    std::fs::write(format!("/verif/evidence/{}.json", prop), ev.pretty()).expect("write evidence");
+    let _ = std::fs::create_dir_all(format!("{}/evidence", home()));
+    std::fs::write(format!("{}/evidence/{}.json", home(), prop), ev.pretty()).expect("write evidence");
 }
